@@ -93,7 +93,10 @@ def run_harness(binary, scenarios, out_path, events, mode="scenarios", timeout=6
                 last = line
             done = b'"harness.done"' in last
     if not done:
-        raise Undecided("harness did not complete (driver died?):\n" + p.stdout[-4000:] + p.stderr[-4000:])
+        both = p.stdout + p.stderr
+        i = both.find("fatal error:")
+        head = both[i:i + 4000] if i >= 0 else both[:2000]
+        raise Undecided("harness did not complete (driver died?):\n" + head + "\n...\n" + both[-3000:])
     return n, p
 
 
